@@ -105,6 +105,7 @@ const (
 type CacheCfg struct {
 	NumCounters  int64     `json:"num_counters"`
 	MaxCost      int64     `json:"max_cost"`
+	InternItems  int64     `json:"intern_items,omitempty"` // MaxCost is raised by this many measured internal item costs (unless IgnoreIntern)
 	BufferItems  int64     `json:"buffer_items"`
 	SetBufSize   int       `json:"set_buf_size"`
 	IgnoreIntern bool      `json:"ignore_internal"`
@@ -224,6 +225,7 @@ const (
 	CapAll            // everything fits with a wide margin
 	CapExactly        // exactly the sum of key costs
 	CapHuge           // MaxCost at the far end of int64 (the 'unlimited' idiom), costs of 2^59..2^63
+	CapJustFits       // exactly the sum, over the keys, of the largest cost each key ever carries in this plan: everything fits, with no slack
 )
 
 const itemSizeGuess = 56 // only used to scale generated costs; oracles measure, never copy
@@ -265,12 +267,12 @@ func init() {
 	// C06/C07-early: one client, everything fits, lag = schedule
 	add(&profile{name: "single", clientsLo: 1, clientsHi: 1, opsLo: 10, opsHi: 40, keysLo: 1, keysHi: 6,
 		mix:     mix{get: 35, set: 22, setTTL: 12, del: 10, getTTL: 6, iter: 3, wait: 10, clear: 1, yield: 2},
-		capMode: []int{CapAll}, bufSmall: 500, collide: 0, strKeys: 200,
+		capMode: []int{CapAll, CapJustFits, CapJustFits}, bufSmall: 500, collide: 0, strKeys: 200,
 		pClockLo: 0, pClockHi: 150, ttlNeg: 60, shouldUpd: 120, metricsPM: 500, epilogue: "std", quiescePM: 20, starveAppl: 300})
 	// C07 early rule: one client (so the reference model applies), TTL heavy, very few keys, sweeps racing re-writes
 	add(&profile{name: "singlettl", clientsLo: 1, clientsHi: 1, opsLo: 10, opsHi: 40, keysLo: 1, keysHi: 3,
 		mix:     mix{get: 35, set: 8, setTTL: 30, del: 5, getTTL: 8, iter: 2, wait: 12, yield: 6},
-		capMode: []int{CapAll}, bufSmall: 400, collide: 0, strKeys: 100,
+		capMode: []int{CapAll, CapJustFits}, bufSmall: 400, collide: 0, strKeys: 100,
 		pClockLo: 80, pClockHi: 350, ttlNeg: 20, shouldUpd: 150, metricsPM: 300, epilogue: "std", quiescePM: 10, starveAppl: 300})
 	// C07/C14: TTL heavy, few keys, sweeps
 	add(&profile{name: "ttl", clientsLo: 1, clientsHi: 3, opsLo: 5, opsHi: 25, keysLo: 1, keysHi: 4,
@@ -467,6 +469,9 @@ func GenPlan(profName string, seed uint64) *Plan {
 		}
 	case CapAll:
 		c.MaxCost = 1 << 40
+		p.Flags.AllFits = true
+	case CapJustFits:
+		c.MaxCost = 1 << 40 // replaced below, once the programs are known
 		p.Flags.AllFits = true
 	case CapHuge:
 		// every sum the cache forms can wrap around here; the true totals still
@@ -764,6 +769,43 @@ func GenPlan(profName string, seed uint64) *Plan {
 		}
 	default:
 		p.Epilogue = []Op{{K: OpWait}, {K: OpQuiesce}, {K: OpClose}, {K: OpProbeClosed}}
+	}
+	if capMode == CapJustFits {
+		// Everything fits, but only just: MaxCost is the sum over the keys of the
+		// largest cost the key carries anywhere in this plan (plus one internal
+		// item cost per key, added by the engine from its own measurement). On a
+		// correct cache no admission ever needs an eviction; any upward drift of
+		// the accounting makes one necessary and shows as a lost entry.
+		maxc := make([]int64, nkeys+1)
+		scan := func(ops []Op) {
+			for _, o := range ops {
+				if o.K != OpSet {
+					continue
+				}
+				cst := o.Cost
+				if cst == 0 && c.CostFn {
+					cst = o.FnC
+				}
+				if cst > maxc[o.Key] {
+					maxc[o.Key] = cst
+				}
+			}
+		}
+		for _, prog := range p.Clients {
+			scan(prog)
+		}
+		scan(p.Closer)
+		scan(p.Epilogue)
+		var tot int64
+		for _, m := range maxc {
+			tot += m
+		}
+		tot += int64(g.pick([]int{0, 0, 0, 1, 7}))
+		if tot == 0 {
+			tot = 1
+		}
+		c.MaxCost = tot
+		c.InternItems = int64(nkeys + 1)
 	}
 	// the epilogue-only key
 	epiKey := uint64(5000 + nkeys)
